@@ -6,7 +6,7 @@ use url::Url;
 
 use crate::framework::{Ctx, Gen, Property, Tier};
 use crate::props::c07::OK_RESPONSE;
-use crate::refmodel::proxy::{self, Decision, ProxyCfg, Relation, Val};
+use crate::refmodel::proxy::{self, Decision, ProxyCfg, Relation};
 use crate::rng::Rng;
 use crate::transport::{Answer, Step, World, WriteFaults};
 
